@@ -156,6 +156,7 @@ func init() {
 				{Name: "wide-shallow", Rule: "messages 2-6 levels deep whose containers hold N in {1,2,100,1021..1025,2100,5000} strings / structs / lists / map entries, known and unknown position: all must be accepted (well inside 48 levels), whatever their width", Body: func(c *explore.C) { c15Wide(c, tier) }},
 				{Name: "wide-deep", Rule: "a recursive record with 24 variable-size fields before its link to the next level, nested 1..46 levels with all / none / every third field present: at most 48 levels, must be accepted and decoded correctly however wide each level is", Body: func(c *explore.C) { c15WideDeep(c, tier) }},
 				{Name: "unknown-nesting", Rule: "cyclic words x depths 1..200, the nest placed under an unknown field id (skipped by the dependency's skipper, bound 64)", Body: func(c *explore.C) { c15Body(c, tier, true) }},
+				{Name: "unknown-containers", Rule: "an unknown field whose value nests containers directly in containers (7 forms over list / set / map-by-value / map-by-key and mixtures) x depths 1..200, 1000, 20000 (10^6 for two forms) x two reader types (the recursive record, a one-field struct): accepted up to 48 levels, rejected with a depth-limit error beyond 65, monotone in between", Body: func(c *explore.C) { c15Pure(c, tier) }},
 			}
 		},
 	})
